@@ -35,7 +35,7 @@ ALL_FEATURES = {
     "array_pop", "early_return", "shadowing", "else_if", "assert_stmt", "array_pass", "struct_pass",
     "string_escapes", "effectful_logic", "continue_in_for", "print_enum", "min_max", "array_slice",
     "array_struct", "float_arith", "deep_expr", "array_alias", "str_substring", "char_at", "global_shadow",
-    "unused_results", "long_strings", "self_compare", "tuple_pass", "effectful_args", "shadow_type_change", "out_of_scope_reference", "array_float", "struct_array_field", "fn_returning_composite", "print_float", "loop_nest", "global_init_expr", "guard_idiom", "ext_builtins", "field_of_call", "global_init_call", "enum_wide_values", "enum_ordering", "exit_in_match_arm",
+    "unused_results", "long_strings", "self_compare", "tuple_pass", "effectful_args", "shadow_type_change", "out_of_scope_reference", "array_float", "struct_array_field", "fn_returning_composite", "print_float", "loop_nest", "global_init_expr", "guard_idiom", "ext_builtins", "field_of_call", "global_init_call", "enum_wide_values", "enum_ordering", "exit_in_match_arm", "string_lifetimes", "shared_field_names",
 }
 
 
@@ -1027,13 +1027,17 @@ def gen_typedefs(g):
         for _ in range(g.i(0, 2)):
             name = "T_S%d" % (len(g.structs) + 1)
             fields = []
-            for j in range(g.i(1, 4)):
+            nf = g.i(1, 4)
+            # field names are shared between structs (and with union variants) and sit at different positions in each:
+            # an engine that resolves a field by name across types instead of by the static type reads the wrong slot
+            rot = g.i(0, 3) if g.has("shared_field_names") else 0
+            for j in range(nf):
                 ft = g.pick(scalar_types(g))
                 if g.has("nested_struct") and g.structs and g.chance(1, 4):
                     ft = ("struct", g.pick(g.structs)[0])
                 if g.has("struct_array_field") and g.has("arrays") and g.chance(1, 6):
                     ft = t_array("int")
-                fields.append(("f%d" % j, ft))
+                fields.append(("f%d" % ((j + rot) % 4), ft))
             g.structs.append((name, fields))
     if g.has("enums"):
         for _ in range(g.i(0, 2)):
@@ -1050,7 +1054,9 @@ def gen_typedefs(g):
             name = "T_U%d" % (len(g.unions) + 1)
             variants = []
             for j in range(g.i(2, 3)):
-                fs = [("u%d" % x, g.pick(scalar_types(g))) for x in range(g.i(1, 2))]
+                pre = "f" if (g.has("shared_field_names") and g.b()) else "u"
+                urot = g.i(0, 2) if pre == "f" else 0
+                fs = [("%s%d" % (pre, (x + urot) % 4), g.pick(scalar_types(g))) for x in range(g.i(1, 2))]
                 variants.append(("V%d%s" % (j, name[3:]), fs))
             g.unions.append((name, variants))
 
@@ -1319,6 +1325,53 @@ def gen_loop_nest(g, sc, cx, out):
     g.use("loop_nest_%s_in_%s_%s" % (inner_kind, okind, ex))
 
 
+def gen_string_lifetimes(g, sc, cx, out):
+    """Several results of one string-producing operation alive at the same time (a static or shared buffer in a runtime
+    shows as equal strings), and a string alias that must keep its value when the original is reassigned and other
+    strings of the same size are created."""
+    if g.b():
+        f = g.pick(["int_to_string", "cast_string", "string_from_char", "str_substring", "str_concat"] if g.has("ext_builtins")
+                   else ["int_to_string", "str_substring", "str_concat"])
+        names = []
+        for j in range(g.i(2, 3)):
+            n = g.fresh()
+            if f in ("int_to_string", "cast_string"):
+                e = ("bi", f, [("int", 111 * (j + 1) + g.i(0, 5))])
+            elif f == "string_from_char":
+                e = ("bi", f, [("int", 65 + j)])
+            elif f == "str_substring":
+                e = ("bi", f, [("str", b"abcdefghij"), ("int", j), ("int", 3)])
+            else:
+                e = ("bi", f, [("str", b"k" * (j + 1)), ("str", b"v")])
+            out.append(("let", n, "string", e, False))
+            sc.vars[n] = ("string", False, {})
+            names.append(n)
+        for n in names:
+            out.append(("println", ("var", n)))
+        out.append(("println", ("bin", "+", ("var", names[0]), ("var", names[-1]), g.style())))
+        out.append(("println", ("bin", "==", ("var", names[0]), ("var", names[-1]), g.style())))
+        if g.has("arrays") and g.has("array_string"):
+            a = g.fresh()
+            out.append(("let", a, t_array("string"), ("arr", "string", [("bi", "int_to_string", [("int", 10 * (j + 1))]) for j in range(3)]), False))
+            sc.vars[a] = (t_array("string"), False, {"minlen": 3})
+            for j in (0, 2):
+                out.append(("println", ("bi", "at", [("var", a), ("int", j)])))
+        g.use("strings_alive_together_" + f)
+    else:
+        cur, prev, pad = g.fresh(), g.fresh(), g.fresh()
+        k = g.i(10, 99)
+        out.append(("let", cur, "string", ("bin", "+", ("str", b"ab"), ("bi", "int_to_string", [("int", k)]), "p"), True))
+        out.append(("let", prev, "string", ("var", cur), False))
+        out.append(("set", cur, ("bin", "+", ("str", b"cd"), ("bi", "int_to_string", [("int", k + 1)]), "p")))
+        out.append(("let", pad, "string", ("bin", "+", ("str", b"ef"), ("bi", "int_to_string", [("int", k + 2)]), "p"), False))
+        for n in (cur, prev, pad):
+            sc.vars[n] = ("string", n == cur, {})
+        out.append(("println", ("var", prev)))
+        out.append(("println", ("var", cur)))
+        out.append(("println", ("var", pad)))
+        g.use("string_alias_then_reassign")
+
+
 def gen_guard_idiom(g, sc, cx, out):
     """Index guards that rely on short-circuit evaluation: the loop runs one past the end of the array and the element
     is only read behind `(or (>= i n) ..)` / `(and (< i n) ..)`."""
@@ -1381,8 +1434,13 @@ def gen_block(g, sc, cx, budget):
     out = []
     n = g.i(1, max(1, min(6, budget)))
     for _ in range(n):
-        k = g.i(0, 25)
-        if k == 25:
+        k = g.i(0, 26)
+        if k == 26:
+            if g.has("string_lifetimes") and g.has("strings"):
+                gen_string_lifetimes(g, sc, cx, out)
+            else:
+                gen_let(g, sc, cx, out)
+        elif k == 25:
             if g.has("guard_idiom") and g.has("arrays") and g.has("while") and cx.depth < 2 and cx.loop_depth < 1:
                 gen_guard_idiom(g, sc, cx, out)
             else:
